@@ -48,6 +48,10 @@ pub struct Case {
     /// request it never answered, while a fresh stream has calls in flight
     #[serde(default)]
     pub churn: bool,
+    /// a raw requestor on the same topic keeps sending requests that carry a forged `cid`
+    /// header (the ids of the client's streams) and the request ids the client has in flight
+    #[serde(default)]
+    pub intruder: bool,
 }
 
 fn f(req: &[u8]) -> Vec<u8> {
@@ -118,6 +122,7 @@ async fn run_typed<K: Kind>(addr: SocketAddr, certs: &Certs, c: &Case) -> Outcom
         let mut never: Vec<(Vec<u8>, MessagePayload)> = vec![];
         let mut churn_held: Vec<(MessagePayload, Vec<u8>)> = vec![];
         let mut bad: Vec<String> = vec![];
+        let mut intruder_reply: Option<Bytes> = None;
         let make_reply = |body: &[u8]| -> Bytes {
             let mut b = enc.encode(K::item(f(body))).unwrap();
             if let Some(a) = rep_comp {
@@ -125,8 +130,11 @@ async fn run_typed<K: Kind>(addr: SocketAddr, certs: &Certs, c: &Case) -> Outcom
             }
             b
         };
+        let mut quiet_at = tokio::time::Instant::now() + Duration::from_millis(40);
         loop {
-            let quiet = tokio::time::sleep(Duration::from_millis(40));
+            // (the quiet period is counted from the last request of the client under test:
+            // warm-up and intruder traffic does not postpone the release of held requests)
+            let quiet = tokio::time::sleep_until(quiet_at);
             tokio::select! {
                 fr = rs.next() => {
                     let Some(Ok(Frame::Message(m))) = fr else { break };
@@ -136,6 +144,12 @@ async fn run_typed<K: Kind>(addr: SocketAddr, certs: &Certs, c: &Case) -> Outcom
                     }
                     let item = match dec.decode(&mut BytesMut::from(&bytes[..])) { Ok(i) => i, Err(e) => { bad.push(format!("request does not decode: {e}")); continue } };
                     let body = K::body(&item);
+                    if body.starts_with(b"intruder") {
+                        // one pre-built reply: answering the intruder must cost the replier nothing
+                        let r = intruder_reply.get_or_insert_with(|| make_reply(b"intruder")).clone();
+                        let _ = rs.send(Frame::Message(MessagePayload { headers: m.headers, message: r })).await;
+                        continue;
+                    }
                     if body.starts_with(b"warmup") {
                         let _ = rs.send(Frame::Message(MessagePayload { headers: m.headers, message: make_reply(&body) })).await;
                         continue;
@@ -159,7 +173,9 @@ async fn run_typed<K: Kind>(addr: SocketAddr, certs: &Certs, c: &Case) -> Outcom
                     }
                     let idx: usize = String::from_utf8_lossy(&body).split('#').nth(1).and_then(|s| s.parse().ok()).unwrap_or(usize::MAX);
                     if idx >= plans2.len() { bad.push(format!("unparseable request body {:?}", String::from_utf8_lossy(&body[..body.len().min(40)]))); continue }
+                    if std::env::var_os("VERIF_DEBUG").is_some() { eprintln!("replier: got #{idx} headers={:?}", m.headers); }
                     held.push((m, body, idx));
+                    quiet_at = tokio::time::Instant::now() + Duration::from_millis(40);
                     if (lcg(&mut pr) % 4) as u8 >= flush_bias % 4 { continue }
                 }
                 Some(name) = late_rx.recv() => {
@@ -169,12 +185,13 @@ async fn run_typed<K: Kind>(addr: SocketAddr, certs: &Certs, c: &Case) -> Outcom
                     }
                     continue;
                 }
-                _ = quiet => {}
+                _ = quiet => { quiet_at = tokio::time::Instant::now() + Duration::from_millis(40); }
             }
             // release everything held, in a permuted order
             while !held.is_empty() {
                 let i = (lcg(&mut pr) as usize) % held.len();
                 let (m, body, idx) = held.swap_remove(i);
+                if std::env::var_os("VERIF_DEBUG").is_some() { eprintln!("replier: release #{idx} as {:?}", plans2[idx]); }
                 match plans2[idx] {
                     Plan::Never => never.push((body, m)),
                     Plan::Late => late.push((body, m)),
@@ -194,7 +211,7 @@ async fn run_typed<K: Kind>(addr: SocketAddr, certs: &Certs, c: &Case) -> Outcom
 
     // `Ok` does not yet mean the replier is bound (the socket reaches the router later):
     // a raw requestor repeats a warm-up request until the scripted replier's answer arrives
-    {
+    let mut wp = {
         let (ws, wr) = match raw_open(&rconn, reg_req("c04ns", &topic_t), Duration::from_secs(10)).await {
             Ok(x) => x,
             Err(e) => return Outcome::Inconclusive(format!("warm-up requestor: {e}")),
@@ -221,7 +238,8 @@ async fn run_typed<K: Kind>(addr: SocketAddr, certs: &Certs, c: &Case) -> Outcom
         if !bound {
             return Outcome::Inconclusive("warm-up: the scripted replier never answered within 10 s".into());
         }
-    }
+        wp
+    };
     let client = match client(addr, certs).await {
         Ok(c) => c,
         Err(e) => return Outcome::Inconclusive(format!("client connect: {e}")),
@@ -276,12 +294,74 @@ async fn run_typed<K: Kind>(addr: SocketAddr, certs: &Certs, c: &Case) -> Outcom
                         let _ = late_tx.send(body.clone());
                         tokio::time::sleep(Duration::from_millis(40)).await;
                     }
+                    if std::env::var_os("VERIF_DEBUG").is_some() { eprintln!("call #{i} s{s}c{cl}k{k} -> {} after {el:?}", match &res { Ok(_) => "Ok".to_string(), Err(e) => e.to_string() }); }
                     out.push(CallResult { idx: i, body, res: res.map(|v| K::body(&v)).map_err(|e| e.to_string()), elapsed: el, short });
                 }
                 out
             }));
         }
     }
+    // the intruder: the warm-up requestor (router id 0 on this topic; the client's streams are
+    // 1..=nstreams) claims to be each of the client's streams, for every request id they use
+    let stop = Arc::new(std::sync::atomic::AtomicBool::new(false));
+    struct StopOnDrop(Arc<std::sync::atomic::AtomicBool>);
+    impl Drop for StopOnDrop {
+        fn drop(&mut self) {
+            self.0.store(true, std::sync::atomic::Ordering::Relaxed);
+        }
+    }
+    let _stop_guard = StopOnDrop(stop.clone());
+    let intruder = if c.intruder {
+        let stop = stop.clone();
+        let req_comp = c.req_comp;
+        let per_stream = nclones * ncalls + 2;
+        Some(tokio::spawn(async move {
+            let enc = K::enc();
+            let (mut round, mut sent, mut got) = (0usize, 0usize, 0usize);
+            while !stop.load(std::sync::atomic::Ordering::Relaxed) && round < 4_000 {
+                round += 1;
+                for cid in 1..=nstreams {
+                    for rid in 0..per_stream {
+                        let mut b = enc.encode(K::item(b"intruder".to_vec())).unwrap();
+                        if let Some(a) = req_comp {
+                            b = c14::make(a).0.compress(b).unwrap();
+                        }
+                        let mut h = std::collections::HashMap::new();
+                        h.insert("req_id".to_string(), format!("{rid}"));
+                        h.insert("cid".to_string(), format!("{cid}"));
+                        wp.send(Frame::Message(MessagePayload { headers: Some(h), message: b }));
+                    }
+                }
+                // closed loop: the next round starts when the replies are back (they come back
+                // to the intruder on a correct server) or after 30 ms; when more than two rounds
+                // are outstanding the intruder backs off, so that the scripted replier is never
+                // given a backlog that would delay the client's own requests
+                sent += nstreams * per_stream;
+                let dl = tokio::time::Instant::now() + Duration::from_millis(30);
+                while got < sent {
+                    match tokio::time::timeout_at(dl, wp.inc.recv()).await {
+                        Ok(Some(PeerEv::Frame(_))) => got += 1,
+                        _ => break,
+                    }
+                }
+                if sent - got > 2 * nstreams * per_stream {
+                    let dl = tokio::time::Instant::now() + Duration::from_secs(1);
+                    while sent - got > nstreams * per_stream {
+                        match tokio::time::timeout_at(dl, wp.inc.recv()).await {
+                            Ok(Some(PeerEv::Frame(_))) => got += 1,
+                            _ => break,
+                        }
+                    }
+                }
+                if std::env::var_os("VERIF_DEBUG").is_some() { eprintln!("intruder round {round}: {got} of {sent} replies back"); }
+                tokio::time::sleep(Duration::from_millis(3)).await;
+            }
+            drop(wp);
+        }))
+    } else {
+        drop(wp);
+        None
+    };
     go.wait().await;
     let mut results = vec![];
     for t in tasks {
@@ -291,7 +371,12 @@ async fn run_typed<K: Kind>(addr: SocketAddr, certs: &Certs, c: &Case) -> Outcom
             Err(_) => return Outcome::fail("call-hung", "a request() neither returned a reply nor its timeout error within 60 s (timeouts are 0.4 s / 8 s)"),
         }
     }
+    stop.store(true, std::sync::atomic::Ordering::Relaxed);
+    if let Some(t) = intruder {
+        let _ = tokio::time::timeout(Duration::from_secs(5), t).await;
+    }
     let mut labels: Vec<&'static str> = vec![];
+    if c.intruder { labels.push("forged-origin-intruder"); }
     // ---- phase A: concurrent never-answered requests must each time out at the timeout ----
     let storm = match c.storm % 5 { 3 => 3usize, 4 => 4, _ => 0 };
     if storm > 0 {
@@ -445,13 +530,13 @@ pub async fn run_case(addr: SocketAddr, certs: &Certs, c: &Case) -> Outcome {
 pub fn strategy() -> BoxedStrategy<Case> {
     let comp = || prop_oneof![3 => Just(None), 2 => c14::algo_strategy().prop_filter("fast levels", |a| !c14::is_slow(*a)).prop_map(Some)];
     let plan = prop_oneof![8 => Just(Plan::Prompt), 1 => Just(Plan::Never), 1 => Just(Plan::Late), 2 => Just(Plan::Dup)];
-    (0u8..3, comp(), comp(), 0u8..3, 0u8..4, 0u8..8, proptest::collection::vec(plan, 1..12), any::<u16>(), 0u8..4, 0u8..5, prop_oneof![3 => Just(0u8), 1 => Just(3u8), 1 => Just(4u8)], prop::bool::weighted(0.35))
-        .prop_map(|(codec, req_comp, rep_comp, nstreams, nclones, ncalls, plans, perm_seed, flush_bias, payload, storm, churn)| Case { codec, req_comp, rep_comp, nstreams, nclones, ncalls, plans, perm_seed, flush_bias, payload, storm, churn })
+    (0u8..3, comp(), comp(), 0u8..3, 0u8..4, 0u8..8, proptest::collection::vec(plan, 1..12), any::<u16>(), 0u8..4, 0u8..5, prop_oneof![3 => Just(0u8), 1 => Just(3u8), 1 => Just(4u8)], (prop::bool::weighted(0.35), prop::bool::weighted(0.3)))
+        .prop_map(|(codec, req_comp, rep_comp, nstreams, nclones, ncalls, plans, perm_seed, flush_bias, payload, storm, (churn, intruder))| Case { codec, req_comp, rep_comp, nstreams, nclones, ncalls, plans, perm_seed, flush_bias, payload, storm, churn, intruder })
         .boxed()
 }
 
 pub fn run(ctx: &mut Ctx) {
-    ctx.rule = "1-3 requestor streams x 1-4 clones x 1-8 sequential calls per clone (<= 24 calls), all clones running concurrently against a scripted wire-level replier that holds requests and releases them in a generated permuted order, answers some twice, at most one never and at most one only after the caller has reported its timeout; unique request bodies, reply = f(request); codec {String, Bytes, Bincode} and generated request/reply compression; oracle: Ok(v) implies v == f(own request); never/late answered calls fail with the timeout error no earlier than the timeout; answered calls on long-timeout streams return Ok; non-trivial = >=2 calls in flight at once and (several calls per stream so replies can come back out of order, or >=2 streams with colliding ids, or a late/never reply followed by another call)".into();
+    ctx.rule = "1-3 requestor streams x 1-4 clones x 1-8 sequential calls per clone (<= 24 calls), all clones running concurrently against a scripted wire-level replier that holds requests and releases them in a generated permuted order, answers some twice, at most one never and at most one only after the caller has reported its timeout; unique request bodies, reply = f(request); in 30% of the cases a raw requestor on the same topic meanwhile sends requests carrying the client streams' ids as a forged origin header and every request id in use (the replier answers those promptly); codec {String, Bytes, Bincode} and generated request/reply compression; oracle: Ok(v) implies v == f(own request); never/late answered calls fail with the timeout error no earlier than the timeout; answered calls on long-timeout streams return Ok; non-trivial = >=2 calls in flight at once and (several calls per stream so replies can come back out of order, or >=2 streams with colliding ids, or a late/never reply followed by another call)".into();
     ctx.assumptions.push("a promptly answered call on a short-timeout (400 ms) stream may legitimately time out under machine load: both Ok(correct) and the timeout error are accepted there".into());
     ctx.assumptions.push("reply delays are scripted as orderings and event-triggered lateness, not as real-time distributions".into());
     let env = match Env::new() {
